@@ -513,6 +513,14 @@ def run_check(pid, tier, seed, nruns=None, workers=None):
         path = write_replay(pid, seed, v2, ops, len(v["ops"]), tests)
         if ops:
             rc, outp = replay_fresh(pid, path)
+            if rc != 1 and len(v["ops"]) > len(ops):
+                # the minimised history is fragile: fall back to the full
+                # recorded one before giving up
+                path_full = write_replay(pid, seed, v, v["ops"], len(v["ops"]), 0)
+                rc_full, _ = replay_fresh(pid, path_full)
+                if rc_full == 1:
+                    rc, path, ops, viol = 1, path_full, v["ops"], v["violation"]
+                    lines.append("note: the minimised history did not reproduce in a fresh interpreter; reporting the full recorded history")
             if rc != 1:
                 harness_errors.append(
                     f"replay of {path} in a fresh interpreter did not reproduce "
